@@ -248,11 +248,45 @@ func r7StmtAlwaysChecked(w *World, r *Report, rule string) {
 	if f == nil {
 		panic(undecided{"parse.Tree.stmt"})
 	}
+	isCheck := func(c *ssa.Call) bool {
+		return (c.Call.IsInvoke() && nm(c.Call.Method) == "check") || (c.Call.StaticCallee() != nil && nm(c.Call.StaticCallee()) == "check")
+	}
+	// a helper of the package that checks on every way back to its caller counts as the check
+	checksAlways := func(g *ssa.Function) bool {
+		if g == nil || g.Blocks == nil || g.Pkg != f.Pkg {
+			return false
+		}
+		var at []*ssa.BasicBlock
+		for _, b := range g.Blocks {
+			for _, in := range b.Instrs {
+				if c, ok := in.(*ssa.Call); ok && isCheck(c) {
+					at = append(at, b)
+				}
+			}
+		}
+		nret := 0
+		for _, b := range g.Blocks {
+			if _, ok := b.Instrs[len(b.Instrs)-1].(*ssa.Return); !ok {
+				continue
+			}
+			nret++
+			covered := false
+			for _, cb := range at {
+				if cb == b || cb.Dominates(b) {
+					covered = true
+				}
+			}
+			if !covered {
+				return false
+			}
+		}
+		return nret > 0 && len(at) > 0
+	}
 	var checks []*ssa.BasicBlock
 	for _, b := range f.Blocks {
 		for _, in := range b.Instrs {
 			if c, ok := in.(*ssa.Call); ok {
-				if (c.Call.IsInvoke() && nm(c.Call.Method) == "check") || (c.Call.StaticCallee() != nil && nm(c.Call.StaticCallee()) == "check") {
+				if isCheck(c) || checksAlways(c.Call.StaticCallee()) {
 					checks = append(checks, b)
 				}
 			}
